@@ -1004,6 +1004,11 @@ func (bc *BlockChain) WriteBlockWithState(block *types.Block, receipts []*types.
 	if reorg {
 		// Reorganise the chain if the parent is not the head block
 		if block.ParentHash() != currentBlock.Hash() {
+			// Flush the block itself before reorg makes the head pointers refer to it
+			if err := batch.Write(); err != nil {
+				return NonStatTy, err
+			}
+			batch.Reset()
 			if err := bc.reorg(currentBlock, block); err != nil {
 				return NonStatTy, err
 			}
